@@ -779,6 +779,14 @@ func (c *SpecCtx) call(n *ast.CallExpr) SV {
 	case "closed":
 		ch := c.coerceTo(c.eval(n.Args[0]), SChan)
 		return SV{V: e.regionRead(c.st, "chan.closed", []Sort{SChan}, SBool, ch)}
+	case "oncedone":
+		// oncedone(x.once): has this sync.Once fired
+		v := c.coerceTo(c.eval(n.Args[0]), SRef)
+		return SV{V: e.regionRead(c.st, "once.done", []Sort{SRef}, SBool, v)}
+	case "iface":
+		// iface(v): the interface value a reflect.Value holds
+		v := c.coerceScalar(c.eval(n.Args[0]))
+		return SV{V: App(SAny, e.namedFun("rv_iface", []Sort{v.So}, SAny), v)}
 	case "lasterr":
 		// lasterr(ctx): what the most recent ctx.Err() on this path (since the last loop cut) returned
 		x := c.coerceTo(c.eval(n.Args[0]), SAny)
